@@ -2,4 +2,5 @@ INIT GenInitThorough
 NEXT GenNext
 CONSTANT HdrSets <- ThoroughHdrSets
 CONSTANT Methods <- AllMethods
+CONSTANT SeqDom <- ThoroughSeqDom
 CONSTANT Schemes <- AllSchemes
